@@ -200,7 +200,9 @@ func (g *rgen) fill(t reflect.Type, depth int) (reflect.Value, string) {
 	case reflect.Complex64, reflect.Complex128:
 		return v, "uns:" + t.Kind().String()
 	case reflect.String:
-		s := []string{"", "a", "hé", "x\ny", "\xff"}[rng.Intn(5)]
+		ss := []string{"", "a", "hé", "x\ny", "\xff", "\x0e\x1b\x1f", "ab\ncd", "\n", strings.Repeat("e", 255), strings.Repeat("f", 256),
+			"\x00\x7f", "q\"'\\", string(rune(rng.Intn(0x30))), string([]byte{byte(rng.Intn(256))})}
+		s := ss[rng.Intn(len(ss))]
 		v.SetString(s)
 		switch t {
 		case reflect.TypeOf(og.Bytes("")):
